@@ -244,8 +244,10 @@ End WithHash.
 (* ---------------- __main__.py: the `bits bech32` subcommand ----------------
    --decode:  raw stdin -> if bits.is_segwit_addr(s): decode_segwit_addr, print network/witness_version/
               witness_program; else: bip173.decode_bech32_string(s) (constant 1), print hrp/payload.
-   encode:    bip173.bech32_encode(args.hrp, data, witness_version=bech32_chars[wv:wv+1] or b"")   -- the
-              checksum constant is NOT passed (default 1 = Bech32) whatever the witness version is. *)
+   encode:    data = read_bytes(...);
+              if args.witness_version is not None and args.witness_version not in range(17): raise ValueError
+              bip173.bech32_encode(args.hrp, data, witness_version=bech32_chars[wv:wv+1] or b"",
+                                   constant=BECH32M_CONST if args.witness_version else 1)          (commit 442ffd4) *)
 Inductive cli_decoded : Type :=
 | CliSegwit (hrp : bytes) (witness_version : Z) (witness_program : bytes)
 | CliBech32 (hrp payload : bytes).
@@ -261,8 +263,17 @@ Definition cli_bech32_decode (s : bytes) : result cli_decoded :=
     '(hrp, payload) <- decode_bech32_string s 1 ;;
     Ok (CliBech32 hrp payload).
 
-(* witness_version: None | int >= 0 (negative values index from the end in Python: not modelled, not generated) *)
+(* witness_version: None | int *)
 Definition cli_bech32_encode (hrp data : bytes) (witness_version : option Z) (print_newline : bool) : result bytes :=
+  (match witness_version with
+   | Some v => if in_range_Z v 0 17 then Ok tt else Err ValueE
+   | None => Ok tt
+   end) ;;;
   let witness_version_byte := match witness_version with Some v => chars_slice v | None => [] end in
-  encoded <- bech32_encode hrp data witness_version_byte 1 ;;
+  (* `BECH32M_CONST if args.witness_version else 1`: None and 0 are falsy *)
+  let constant := match witness_version with
+                  | Some v => if v =? 0 then 1 else BECH32M_CONST
+                  | None => 1
+                  end in
+  encoded <- bech32_encode hrp data witness_version_byte constant ;;
   Ok (if print_newline then encoded ++ [x0a] else encoded).
